@@ -29,7 +29,7 @@ type Ty struct {
 	N      int
 	Elem   *Ty
 	Fields []*Ty
-	Name   string // struct type name
+	Name   string // struct type name; arrays: name of a package-level `type Name [n]T` ("" = literal type)
 }
 
 var tyBool = &Ty{K: KBool}
@@ -86,6 +86,9 @@ func (t *Ty) Src() string {
 	case KUint:
 		return fmt.Sprintf("uint%d", t.W)
 	case KArr:
+		if t.Name != "" {
+			return t.Name // package-level `type Name [n]T`
+		}
 		return fmt.Sprintf("[%d]%s", t.N, t.Elem.Src())
 	default:
 		return t.Name
@@ -117,7 +120,7 @@ func (t *Ty) Sx() string {
 // ---------------------------------------------------------------- expressions
 
 type Expr struct {
-	K     string // lit var ivar bin shift not neg cast idx fld call
+	K     string // lit var ivar cvar bin shift not neg cast idx fld call (cvar: package-level constant)
 	T     *Ty
 	N     *big.Int // lit: wire pattern
 	X     string   // var / ivar name; bin: operator
@@ -135,7 +138,7 @@ var srcOp = map[string]string{
 	"clr": "&^", "eq": "==", "ne": "!=", "lt": "<", "le": "<=", "gt": ">", "ge": ">=", "land": "&&", "lor": "||",
 }
 
-func (e *Expr) IsConst() bool { return e.K == "lit" || e.K == "ivar" }
+func (e *Expr) IsConst() bool { return e.K == "lit" || e.K == "ivar" || e.K == "cvar" }
 
 func (e *Expr) Src() string {
 	switch e.K {
@@ -158,7 +161,7 @@ func (e *Expr) Src() string {
 		return s
 	case "var":
 		return e.X
-	case "ivar":
+	case "ivar", "cvar":
 		if e.Typed {
 			return e.T.Src() + "(" + e.X + ")"
 		}
@@ -195,7 +198,8 @@ func (e *Expr) Sx() string {
 	switch e.K {
 	case "lit":
 		return fmt.Sprintf("( L %s %s )", e.T.Sx(), e.N.String())
-	case "var":
+	case "var", "cvar":
+		// a package-level constant is declared with the type it is used at
 		return "( V " + e.X + " )"
 	case "ivar":
 		if e.T.K == KInt && e.T.W == 32 {
@@ -511,11 +515,59 @@ func (f *Func) Sx() string {
 	return sb.String()
 }
 
+// Global is a package-level `var` / `const` declaration of package main.
+type Global struct {
+	Name     string
+	T        *Ty      // untyped constants: the type of the contexts the generator uses it in
+	Const    bool     // `const`
+	Untyped  bool     // `const Name = n` (no type in the source)
+	Init     *big.Int // nil: zero value (`var Name T`)
+	MainOnly bool     // var referenced by main only (main may assign it)
+	Last     bool     // declared after the functions in the source
+}
+
+func globalLit(t *Ty, n *big.Int) string {
+	if t.K == KBool {
+		if n.Sign() != 0 {
+			return "true"
+		}
+		return "false"
+	}
+	if n.BitLen() > 8 && n.Bit(0) == 1 {
+		return "0x" + n.Text(16)
+	}
+	return n.String()
+}
+
+func (gl *Global) Src() string {
+	switch {
+	case gl.Const && gl.Untyped:
+		return fmt.Sprintf("const %s = %s\n", gl.Name, globalLit(gl.T, gl.Init))
+	case gl.Const:
+		return fmt.Sprintf("const %s %s = %s\n", gl.Name, gl.T.Src(), globalLit(gl.T, gl.Init))
+	case gl.Init == nil:
+		return fmt.Sprintf("var %s %s\n", gl.Name, gl.T.Src())
+	}
+	return fmt.Sprintf("var %s %s = %s\n", gl.Name, gl.T.Src(), globalLit(gl.T, gl.Init))
+}
+
+func (gl *Global) Sx() string {
+	switch {
+	case gl.Const:
+		return fmt.Sprintf("( GC %s %s %s )", gl.Name, gl.T.Sx(), gl.Init.String())
+	case gl.Init == nil:
+		return fmt.Sprintf("( G %s %s )", gl.Name, gl.T.Sx())
+	}
+	return fmt.Sprintf("( G %s %s %s )", gl.Name, gl.T.Sx(), gl.Init.String())
+}
+
 type Program struct {
-	Structs []*Ty
-	Funcs   []*Func // Funcs[len-1] is main
-	Tags    map[string]bool
-	Defect  string // known-defect probe class ("" for ordinary programs)
+	Structs  []*Ty
+	ArrTypes []*Ty     // package-level `type Name [n]T`
+	Globals  []*Global // package-level var / const (empty: the program is serialised as before)
+	Funcs    []*Func   // Funcs[len-1] is main
+	Tags     map[string]bool
+	Defect   string // known-defect probe class ("" for ordinary programs)
 }
 
 func (p *Program) Main() *Func { return p.Funcs[len(p.Funcs)-1] }
@@ -530,17 +582,51 @@ func (p *Program) Src() string {
 		}
 		sb.WriteString("}\n\n")
 	}
+	for _, t := range p.ArrTypes {
+		fmt.Fprintf(&sb, "type %s [%d]%s\n\n", t.Name, t.N, t.Elem.Src())
+	}
+	n := 0
+	for _, gl := range p.Globals {
+		if !gl.Last {
+			sb.WriteString(gl.Src())
+			n++
+		}
+	}
+	if n > 0 {
+		sb.WriteByte('\n')
+	}
 	// main first, helpers after (declaration order does not matter in MPCL)
 	p.Main().src(&sb)
 	for _, f := range p.Funcs[:len(p.Funcs)-1] {
 		sb.WriteByte('\n')
 		f.src(&sb)
 	}
+	for _, gl := range p.Globals {
+		if gl.Last {
+			sb.WriteByte('\n')
+			sb.WriteString(gl.Src())
+		}
+	}
 	return sb.String()
 }
 
 func (p *Program) Sx() string {
 	var sb strings.Builder
+	if len(p.Globals) > 0 {
+		// ( PG main ( gdecl* ) func* ): lean/Driver/C03.lean, Model/MpclPkg.lean
+		fmt.Fprintf(&sb, "( PG %d (", len(p.Funcs)-1)
+		for _, gl := range p.Globals {
+			sb.WriteByte(' ')
+			sb.WriteString(gl.Sx())
+		}
+		sb.WriteString(" )")
+		for _, f := range p.Funcs {
+			sb.WriteByte(' ')
+			sb.WriteString(f.Sx())
+		}
+		sb.WriteString(" )")
+		return sb.String()
+	}
 	fmt.Fprintf(&sb, "( P %d", len(p.Funcs)-1)
 	for _, f := range p.Funcs {
 		sb.WriteByte(' ')
